@@ -10,7 +10,7 @@
 From Coq Require Import ZArith List Bool Sorting.Sorted.
 From NV Require Import Common.Outcome Common.MachineInt Seq.Index Seq.IndexSpec Seq.Index_proofs
   Seq.Streams Seq.StreamsSpec Seq.Streams_proofs Seq.Streams_counter_proofs Seq.Streams_comb_proofs
-  Seq.Streams_obs_proofs Seq.Streams_adapt_proofs.
+  Seq.Streams_combu_proofs Seq.Streams_obs_proofs Seq.Streams_adapt_proofs.
 Import ListNotations.
 Open Scope Z_scope.
 
@@ -162,16 +162,18 @@ Theorem C11_perm_len_step_bounded : forall n t e, (n <= 6)%nat ->
 Proof. exact perm_len_step_bounded. Qed.
 Print Assumptions C11_perm_len_step_bounded.
 
-(* ================================================================ Combinations, at most 6 things *)
-(* no len override: len is the default (count by iterating a clone) *)
-Theorem C11_comb_bounded : forall n k, (n <= 6)%nat -> (k <= n + 1)%nat ->
+(* ================================================================ Combinations: every n and k *)
+(* no len override: len is the default (count by iterating a clone).  For EVERY base length n
+   and selection size k the stream terminates from every reachable state, and lists exactly the
+   strictly increasing index vectors of length k below n, each once, in lexicographic order *)
+Theorem C11_comb_enumerates_exactly : forall n k,
   exists l, yields (comb_step n) (comb_init k) l /\ enumerates (is_comb n k) l /\
     forall t, reaches (comb_step n) (comb_init k) t ->
       exists l', yields (comb_step n) t l' /\
         forall fuel, (length l' < fuel)%nat ->
           default_len (comb_step n) fuel t = Ok (Some (Z.of_nat (length l'))).
-Proof. exact comb_bounded. Qed.
-Print Assumptions C11_comb_bounded.
+Proof. exact comb_unbounded. Qed.
+Print Assumptions C11_comb_enumerates_exactly.
 
 (* ================================================================ default len, lazy adaptors *)
 Theorem C11_default_len_counts_iteration : forall (St E : Type) (step : St -> option E * St) s l fuel,
